@@ -23,6 +23,8 @@ type numCase struct {
 	Items []numItem `json:"items"`
 }
 
+const enumFive = "enum E { ZERO = 0, ONE = 1, MINUS_ONE = -1, MIN = -2147483648, MAX = 2147483647 }\n"
+
 func renderNum(c numCase) (string, bool) {
 	var sb strings.Builder
 	nonStrict := false
@@ -58,6 +60,12 @@ func renderNum(c numCase) (string, bool) {
 		fmt.Fprintf(&sb, "const list<%s> x = [%s]\n", c.Ty, c.Items[0].Lit)
 	case "mapkey":
 		fmt.Fprintf(&sb, "const map<%s, string> x = {%s: \"a\"}\n", c.Ty, c.Items[0].Lit)
+	case "enum-const":
+		fmt.Fprintf(&sb, "%sconst E x = %s\n", enumFive, c.Items[0].Lit)
+	case "enum-default":
+		fmt.Fprintf(&sb, "%sstruct S {\n  1: optional E f = %s\n}\n", enumFive, c.Items[0].Lit)
+	case "enum-list":
+		fmt.Fprintf(&sb, "%stypedef E TE\nconst list<TE> x = [%s]\n", enumFive, c.Items[0].Lit)
 	case "dup-id":
 		sb.WriteString("struct S {\n  1: optional i32 a\n  1: optional i32 b\n}\n")
 	case "dup-name":
@@ -126,6 +134,8 @@ func constLeaves(v compile.ConstantValue, out *[][]int) {
 		}
 	case compile.ConstReference:
 		constLeaves(x.Target.Value, out)
+	case compile.EnumItemReference:
+		*out = append(*out, wj.Limbs(uint64(int64(x.Item.Value))))
 	}
 }
 
@@ -151,10 +161,10 @@ func c09Observe(id string, c numCase, raw interface{}) wj.J {
 					nums = append(nums, wj.Limbs(uint64(int64(it.Value))))
 				}
 			}
-		case "fields-strict", "fields-nonstrict", "default":
+		case "fields-strict", "fields-nonstrict", "default", "enum-default":
 			if s, ok := m.Types["S"].(*compile.StructSpec); ok {
 				for _, f := range s.Fields {
-					if c.Ctx == "default" {
+					if c.Ctx == "default" || c.Ctx == "enum-default" {
 						constLeaves(f.Default, &nums)
 					} else {
 						nums = append(nums, wj.Limbs(uint64(int64(f.ID))))
